@@ -3,8 +3,6 @@
 #define N 3
 #endif
 unsigned char nondet_uchar(void);
-static const struct { int tok; int push; int pop; } act_tab[31] = { {0,0,0},{309,1,0},{311,0,1},{310,0,0},{306,2,0},{308,0,1},{307,0,0},{312,0,0},{313,0,0},{302,0,0},{314,0,0},{303,0,0},{304,0,0},{301,0,0},
- {320,0,0},{321,0,0},{322,0,0},{325,0,0},{325,0,0},{330,0,0},{331,0,0},{332,0,0},{333,0,0},{334,0,0},{335,0,0},{336,0,0},{337,0,0},{305,0,0},{-28,0,0},{-29,0,0},{0,0,0} };
 struct tok { int code, start, len; };
 static unsigned char t[N];
 /* tokenise chunk [b,e); state (cond) carried in *cond */
@@ -19,7 +17,7 @@ static int chunk(int b, int e, int *cond, struct tok *out, int n) {
     }
     int a = vx_accept[st];
     if (a == 0) { st = last_st; len = last_len; a = vx_accept[st]; }
-    __CPROVER_assert(len > 0 && a > 0 && a < 29, "scanner always makes progress with a rule");
+    __CPROVER_assert(len > 0 && a > 0 && a <= VX_NRULES, "C13: scanner always makes progress with a rule");
     int code = act_tab[a].tok; if (code == -28) code = t[pos];
     if (act_tab[a].pop) *cond = 0; else if (act_tab[a].push) *cond = act_tab[a].push;
     out[n].code = code; out[n].start = pos; out[n].len = len; ++n;
@@ -29,13 +27,24 @@ static int chunk(int b, int e, int *cond, struct tok *out, int n) {
   return n;
 }
 int main(void) {
+  /* text bytes: anything but NUL (C strings), CR (removed by the readers) and LF (a reader delivery always ends at LF,
+     so a fragment boundary inside a line has no LF before it) */
   for (int i = 0; i < N; ++i) { t[i] = nondet_uchar(); __CPROVER_assume(t[i] != 0 && t[i] != '\r' && t[i] != '\n'); }
+  /* known-finding region: the second fragment starts (after blanks) with '#': rule ^[ \t]*#.* fires although it is not a line start */
+  _Bool bolhash = 0; { _Bool blank = 1; for (int i = K; i < N; ++i) { if (blank && t[i] == '#') bolhash = 1; if (t[i] != ' ' && t[i] != '\t') blank = 0; } }
+#ifdef EXCL_BOL
+  __CPROVER_assume(!bolhash);
+#endif
+#ifdef ONLY_BOL
+  __CPROVER_assume(bolhash);
+#endif
   struct tok A[N+1], B[N+1]; int ca = 0, cb = 0;
   int na = chunk(0, N, &ca, A, 0);
   int nb = chunk(0, K, &cb, B, 0); nb = chunk(K, N, &cb, B, nb);
   _Bool boundary = 0; for (int i = 0; i < na; ++i) if (A[i].start + A[i].len == K) boundary = 1;
   _Bool same = (na == nb);
   for (int i = 0; i < N; ++i) if (i < na && i < nb) same = same && A[i].code == B[i].code && A[i].start == B[i].start && A[i].len == B[i].len;
+  __CPROVER_assert(0, "WITNESS reachable");
 #ifdef P1
   __CPROVER_assert(!boundary || same, "C13-P1: fragment boundary on a token boundary gives the same tokens");
 #else
